@@ -396,7 +396,10 @@ class LinAlgError(np.linalg.LinAlgError):
 
 def adj_inv(a, *args, **kw):
     """Stub for scipy.linalg.inv / numpy.linalg.inv: adjugate inverse, n <= 3.
-    Contract honoured: returns the exact inverse; singular matrix -> LinAlgError."""
+    Contract honoured: returns the exact inverse; singular matrix -> LinAlgError; with
+    overwrite_a=True the data of the argument is discarded (scipy: "may" overwrite - the model
+    always does, writing the inverse into it, as LAPACK does for Fortran-ordered input)."""
+    orig = a
     a = np.asarray(a)
     if a.dtype != object:
         import scipy.linalg
@@ -434,6 +437,8 @@ def adj_inv(a, *args, **kw):
     for i in range(n):
         for j in range(n):
             out[i, j] = adj[i, j] * rdet
+    if kw.get("overwrite_a") and isinstance(orig, np.ndarray) and orig.flags.writeable:
+        orig[...] = out
     return out
 
 
